@@ -333,6 +333,10 @@ class Container:
         if idx is not None:
             if idx < -self._size or idx >= self._size:
                 raise IndexError('point index out of range')
+            if idx < 0:
+                # Count from the end of the points in use, not from the end of
+                # the (possibly larger) allocated buffers.
+                idx += self._size
             for name in pt._data_dictionary:
                 if name in self._data:
                     val = self._data[name]
